@@ -11,6 +11,6 @@ func init() {
 	c05.RedisCfg = redisCfg
 	c05.RedisCfgFault = redisCfgFault
 	registry["C05"] = entry{run: c05.Run, replay: func(r *monitor.Run, d json.RawMessage) { c05.Replay(r, d) }, level: "exploration",
-		rule: "cases = (a) lifecycle histories of one client id: v3.1/v3.1.1/v5, configured session_expiry 2 s / 2 h, requested expiry absent/0/1/2/3/3600/0xFFFFFFFF, connection shorter or longer than the expiry, DISCONNECT / DISCONNECT with new expiry / abrupt close, TerminateSession, offline time 0.9 s on either side of the expiry, reconnect with clean start 0/1 or as take-over; Session Present, the CONNACK expiry, subscriptions and a QoS1 message queued while offline are compared with a session model (real time, 400 ms margins, verdicts must recur); (b) storms of 2-6 simultaneous CONNECTs with one client id on a new / offline / online session under the Go race detector with seeded delays at the broker's lock hand-over points: exactly one socket answers PINGREQ, the others are closed, hooks never show two attached connections, GetClient is the survivor, later messages reach only the survivor; plus the deterministic take-over of a stuck consumer. Distinct by case parameters; all non-trivial. Plus broker restarts on the redis store during the offline period and sessions that end while redis refuses the DEL of their queue. Ends of the first connection include a DISCONNECT that tries to give an expiry-0 session a non-zero expiry (refused: the session ends as CONNECT said) and, drawn at random, DISCONNECTs that raise, lower or zero the expiry.",
+		rule: "cases = (a) lifecycle histories of one client id: v3.1/v3.1.1/v5, configured session_expiry 2 s / 2 h, requested expiry absent/0/1/2/3/3600/0xFFFFFFFF, connection shorter or longer than the expiry, DISCONNECT / DISCONNECT with new expiry / abrupt close, TerminateSession, offline time 0.9 s on either side of the expiry, reconnect with clean start 0/1 or as take-over; Session Present, the CONNACK expiry, subscriptions and a QoS1 message queued while offline are compared with a session model (real time, 400 ms margins, verdicts must recur); (b) storms of 2-6 simultaneous CONNECTs with one client id on a new / offline / online session under the Go race detector with seeded delays at the broker's lock hand-over points: exactly one socket answers PINGREQ, the others are closed, hooks never show two attached connections, GetClient is the survivor, later messages reach only the survivor; plus the deterministic take-over of a stuck consumer. Distinct by case parameters; all non-trivial. Plus broker restarts on the redis store during the offline period and sessions that end while redis refuses the DEL of their queue. Ends of the first connection include a DISCONNECT that tries to give an expiry-0 session a non-zero expiry (refused: the session ends as CONNECT said) and, drawn at random, DISCONNECTs that raise, lower or zero the expiry. DISCONNECT values above the configured maximum are capped like the one of CONNECT.",
 		assumptions: []string{"real time with 400 ms margins for (a)", "the DISCONNECT 0x8E to a displaced connection is optional", "race reports in gmqtt code during the storms are violations (counted by ./check from the race log)"}}
 }
